@@ -174,7 +174,7 @@ PROPS = {
             "Astral.C02.quartic_bounds", "Astral.C02.refraction_high", "Astral.C02.refraction_low",
             "Astral.C02.refraction_bounds", "Astral.C02.apparent_minus_true",
         ],
-        "groups": [G("corr_sun", "sun_angles", 4000, 150000), G("corr_sun", "sun_chain", 2800, 60000),
+        "groups": [G("corr_norm", "norm", 1500, 30000), G("corr_sun", "sun_angles", 4000, 150000), G("corr_sun", "sun_chain", 2800, 60000),
                    G("corr_sun", "refraction", 2000, 40000), G("corr_julian", "julian", 1200, 20000)],
         "unproved": ["agreement with an independent almanac-grade ephemeris to 0.03° (0.26° at the poles)"],
         "assumes": ["IEEE rounding stays below the tolerances (bit-exact Float correspondence observed)"],
@@ -317,7 +317,7 @@ PROPS = {
             "Astral.C08.angles_instant_only", "Astral.C08.elevation_instant_only",
             "Astral.C08.hourAngle_normalised",
         ],
-        "groups": [G("corr_sun", "sun_angles", 6000, 200000), G("corr_julian", "julian", 1200, 20000)],
+        "groups": [G("corr_norm", "norm", 1200, 30000), G("corr_sun", "sun_angles", 6000, 200000), G("corr_julian", "julian", 1200, 20000)],
         "unproved": [],
         "assumes": ["whole-second datetimes"],
     },
